@@ -807,12 +807,14 @@ static struct aws_json_value *build_api(const Node &n, const ApiVariant &av) {
 }
 
 struct TreeInfo {
-    size_t depth = 0, nodes = 0;
+    size_t depth = 0, nodes = 0, obj_depth = 0;
     bool esc_string = false, nonint = false, bad_utf8 = false, multibyte = false, ctrl = false, big_int = false, subnormal = false,
          digits17 = false, long_string = false;
 };
-static void info(const Node &n, size_t d, TreeInfo &ti) { // d = number of containers around n
+static void info(const Node &n, size_t d, TreeInfo &ti, size_t od = 0) { // d = number of containers around n, od = objects among them
     ti.nodes++;
+    if (n.type == V_OBJ) od++;
+    if (od > ti.obj_depth) ti.obj_depth = od;
     bool container = n.type == V_ARR || n.type == V_OBJ;
     if (d + (container ? 1 : 0) > ti.depth) ti.depth = d + (container ? 1 : 0);
     auto str = [&](const std::string &s) {
@@ -832,7 +834,7 @@ static void info(const Node &n, size_t d, TreeInfo &ti) { // d = number of conta
         if (!n.exact15) ti.digits17 = true;
     }
     for (auto &k : n.keys) str(k);
-    for (auto &k : n.kids) info(k, d + 1, ti);
+    for (auto &k : n.kids) info(k, d + 1, ti, od);
 }
 
 // numbers of the known finding are moved out of its class unless the case asks to keep them
@@ -1035,15 +1037,22 @@ static void run(const Case &c, Ctx &ctx) {
         T2 = aws_json_value_new_from_string(A, aws_byte_cursor_from_array(formatted.data(), formatted.size()));
         PBT_CHECK(T2 != nullptr, "the library does not parse its own formatted output: %s", show(formatted).c_str());
         walk(T2, root, ns, "re-parse of formatted output", "", false);
-        PBT_CHECK(aws_json_value_compare(T, T1, true), "compare(original, re-parsed compact) is false");
-        PBT_CHECK(aws_json_value_compare(T, T2, true), "compare(original, re-parsed formatted) is false");
-        PBT_CHECK(aws_json_value_compare(T1, T, false), "case-insensitive compare(re-parsed, original) is false");
+        // cJSON_Compare visits every member of an object twice (a in b, then b in a): 2^k leaf visits under k nested
+        // objects.  The comparison is made where that is affordable; deeper object chains are compared through the getters only.
+        const bool can_compare = ti.obj_depth <= 12;
+        if (!can_compare) ctx.tag("compare_skipped_object_chain");
+        if (can_compare) {
+            PBT_CHECK(aws_json_value_compare(T, T1, true), "compare(original, re-parsed compact) is false");
+            PBT_CHECK(aws_json_value_compare(T, T2, true), "compare(original, re-parsed formatted) is false");
+            PBT_CHECK(aws_json_value_compare(T1, T, false), "case-insensitive compare(re-parsed, original) is false");
+        }
 
         // ---- duplicate
         D = aws_json_value_duplicate(T);
         PBT_CHECK(D != nullptr, "duplicate returned NULL");
         PBT_CHECK(D != T, "duplicate returned the original");
-        PBT_CHECK(aws_json_value_compare(D, T, true) && aws_json_value_compare(T, D, true), "a duplicate does not compare equal to its original");
+        if (can_compare)
+            PBT_CHECK(aws_json_value_compare(D, T, true) && aws_json_value_compare(T, D, true), "a duplicate does not compare equal to its original");
         {
             // a value of another type is not equivalent
             struct aws_json_value *other = root.type == V_NULL ? aws_json_value_new_boolean(A, true) : aws_json_value_new_null(A);
@@ -1108,10 +1117,11 @@ int main(int argc, char **argv) {
             }
         }
     }
-    const char *k = getenv("VERIF_KNOWN");
-    if (k) {
+    for (const char *var : {"VERIF_KNOWN", "VERIF_KNOWN_EXTRA"}) { // the second one is a development aid (the driver sets the first)
+        const char *k = getenv(var);
+        if (!k) continue;
         std::string s = std::string(",") + k + ",";
-        g_known_tiny = s.find(std::string(",") + KNOWN_TINY + ",") != std::string::npos;
+        if (s.find(std::string(",") + KNOWN_TINY + ",") != std::string::npos) g_known_tiny = true;
     }
     aws_common_library_init(galloc::full()); // the JSON module takes its allocator here: every cJSON block goes through galloc
     Spec sp{"C11", "c11_json_tree", gen_case, run,
